@@ -16,6 +16,13 @@ import (
 // sentinel on unchanged. Wrapping it on the way (errors.Wrap, fmt.Errorf ...) makes the comparison false and sends the
 // caller down its "any other error" branch - in handleReplicationResponse that branch is a panic.
 
+// sentinelWrapExceptions: a wrap that is on the chain but cannot matter, keyed by sentinel | comparing function | wrapping
+// function, with the reason.
+var sentinelWrapExceptions = map[string]string{
+	"io.EOF|server.(*partition).newSubscribeLoop$1|server/commitlog.readMessage":           "the forward readers block at the end of the log and meet io.EOF only when the subscription's context is cancelled, when nobody observes the status; the end-of-iteration io.EOF is the reverse reader's, which returns it bare",
+	"io.EOF|server.(*partition).newSubscribeLoop$1|server/commitlog.(*Reader).ReadMessage": "the forward readers block at the end of the log and meet io.EOF only when the subscription's context is cancelled, when nobody observes the status; the end-of-iteration io.EOF is the reverse reader's, which returns it bare",
+}
+
 type sentinelSite struct {
 	Fn   *ssa.Function
 	Cmp  *ssa.BinOp
@@ -395,6 +402,21 @@ func ruleSentinelIdentity(c *eng.Ctx, rule string, roots []string, why string) i
 			continue // the compared value does not come from a module function (nats, raft, io): nothing to hand on
 		}
 		construct := s.Name + " compared by identity in " + ir.FuncKey(s.Fn)
+		// named exceptions: sentinel | comparing function | wrapping function
+		kept := wraps[:0:0]
+		excused := ""
+		for _, w := range wraps {
+			wf := ""
+			if f := w.Parent(); f != nil {
+				wf = ir.FuncKey(f)
+			}
+			if why, ok := sentinelWrapExceptions[s.Name+"|"+ir.FuncKey(s.Fn)+"|"+wf]; ok {
+				excused = " (wrap in " + wf + " excepted: " + why + ")"
+				continue
+			}
+			kept = append(kept, w)
+		}
+		wraps = kept
 		if len(wraps) > 0 {
 			n++
 			c.Violate(construct, c.Pos(wraps[0]), s.Name+" is wrapped on its way to an identity comparison ("+c.Pos(s.Cmp)+"): the comparison is false for it and "+why)
@@ -408,7 +430,7 @@ func ruleSentinelIdentity(c *eng.Ctx, rule string, roots []string, why string) i
 			continue
 		}
 		n++
-		c.OK(construct, c.Pos(s.Cmp), "handed on unchanged by "+joinShort(chain))
+		c.OK(construct, c.Pos(s.Cmp), "handed on unchanged by "+joinShort(chain)+excused)
 	}
 	return n
 }
